@@ -359,6 +359,8 @@ class Flow:
                     return
             for o in ops:
                 self._visit_operand(o, (), s, stop, mut_ok, tac)
+            if ak == "adt" and not ops:
+                s.roots.add(("unit", r["adt"], r["variant"]))
             if ak in ("closure", "coroutine", "coroutineclosure"):
                 s.roots.add(("closure", r["def"], None))
         elif k == "bin":
